@@ -239,11 +239,17 @@ class Build:
             tr.append('}')
             open(d + '/tramp.cpp', 'w').write('\n'.join(tr) + '\n')
         text = open(shim_cpp).read()
-        entries = re.findall(r'^\s*H\((h_\w+)\)', text, re.M)
+        entries = re.findall(r'^\s*(?:H|OP)\((h_\w+)[,)]', text, re.M)
         if getattr(u, 'only_entries', None): entries = [e for e in entries if e in u.only_entries]
         if not entries: raise RuntimeError('no harness entry points in ' + shim_cpp)
         must(['clang++-14'] + CXXDEFS + u.extra_ll_flags + ['-I' + VERIF + '/shim', '-O1', '-Xclang', '-disable-llvm-passes', '-gline-tables-only', '-w', '-S', '-emit-llvm', shim_cpp, '-o', d + '/shim0.ll'])
         stext, sctors = self._normalise(open(d + '/shim0.ll').read(), self.alias)
+        # the shim's own static initialisers get unique names (the library has functions called __cxx_global_var_init... too)
+        ren = {}
+        for c in sctors: ren[c] = 'vpshim.' + c.strip('"')
+        if ren:
+            stext = re.sub(r'@("[^"]+"|[\w.$]+)', lambda m: '@' + ren.get(m.group(1), m.group(1)), stext)
+            sctors = [ren[c] for c in sctors]
         open(d + '/shim.ll', 'w').write(stext)
         link_extra = []
         if u.redirect:
